@@ -15,13 +15,17 @@ GGetNone(w) == /\ held[w] = None /\ (IF pq = <<>> THEN TRUE ELSE pq[1].at > now)
                /\ UNCHANGED vars /\ Rec(Cmd("get", "", 0, w, 0))
 GRelease(w) == Release(w, 0) /\ Rec(Cmd("release", "", 0, w, 0))
 GRequeue(w, d) == Release(w, now + d) /\ Rec(Cmd("requeue", "", 0, w, d))
+(* a worker calls Release / Requeue once more on a handle it already released (deferred Release after Requeue is the *)
+(* runtime's own pattern): documented no-op, whatever happened to the key meanwhile                                   *)
+GStale(w, d) == UNCHANGED vars /\ Rec(Cmd("stale", "", 0, w, d))
 GTick == Tick /\ Rec(Cmd("sleep", "", 0, 0, 1))
 
 ModelNext ==
   \E coin \in {RandomElement(1..10)} :
     IF coin <= 3 THEN \E k \in Keys, v \in Vals : GPut(k, v)
     ELSE IF coin <= 6 THEN \E w \in Workers : GGet(w) \/ GGetNone(w) \/ GRelease(w)
-    ELSE IF coin <= 8 THEN (\E w \in Workers, d \in 1..MaxDelay : GRequeue(w, d)) \/ (\E w \in Workers : GGetNone(w) \/ GGet(w))
+    ELSE IF coin <= 7 THEN (\E w \in Workers, d \in 1..MaxDelay : GRequeue(w, d)) \/ (\E w \in Workers : GGetNone(w) \/ GGet(w))
+    ELSE IF coin <= 8 THEN \E w \in Workers, d \in 0..1 : GStale(w, d)
     ELSE IF now < MaxNow THEN GTick ELSE \E k \in Keys, v \in Vals : GPut(k, v)
 
 Finish == /\ ~done /\ PrintT(<<"BEH", ToJson(hist)>>) /\ done' = TRUE /\ UNCHANGED vars /\ UNCHANGED hist
